@@ -352,6 +352,8 @@ func runJob3(j job) string {
 		return encLine(j.data)
 	case "P3":
 		return progBoth(j.data)
+	case "Y3":
+		return sencPassJob(j.data, j.cfg)
 	case "E3":
 		var r string
 		mode := mp4.EncFragFileMode(j.cfg[3] - '0')
@@ -442,6 +444,19 @@ func cmdCorr3(seed uint64, n int, exh int) {
 		jobs = append(jobs, job{kind: "P3", cfg: "-", data: d})
 		metas = append(metas, "P\t"+hx.Hex(d))
 	}
+	// Y: the second senc pass of the two file loops over trafs mixing clear / encrypted / zero-sample senc
+	for _, c := range genYCases(r, n/4) {
+		data, tops := c.render()
+		moov, trafs := c.modelStrings()
+		ts := make([]string, len(tops))
+		for i, t := range tops {
+			ts[i] = fmt.Sprintf("%s@%d", t.code, t.size)
+		}
+		for _, cfg := range []string{"RN0", "SN0", "RN2", "SN2"} {
+			jobs = append(jobs, job{kind: "Y3", cfg: cfg, data: data})
+			metas = append(metas, "Y\t"+cfg+"\t"+moov+"\t"+strings.Join(ts, ";")+"\t"+trafs)
+		}
+	}
 	for _, pl := range []int{0, 1, 7, 300} {
 		for _, d := range [][]byte{mdat(pl), lmdat(pl)} {
 			jobs = append(jobs, job{kind: "M3", cfg: "-", data: d})
@@ -456,6 +471,8 @@ func cmdCorr3(seed uint64, n int, exh int) {
 			if res[i] != "-" {
 				fmt.Fprintf(out, "M\tm%d\t%s\n", i, res[i])
 			}
+		} else if m[0] == 'Y' {
+			fmt.Fprintf(out, "Y\ty%d\t%s\t%s\n", i, m[2:], res[i])
 		} else if m[0] == 'V' {
 			fmt.Fprintf(out, "V\tv%d\t%s\t%s\n", i, m[2:], res[i])
 		} else if m[0] == 'T' {
@@ -560,6 +577,14 @@ func cmdSearch3(seed uint64, n int) {
 				descs = append(descs, fmt.Sprintf("fragfile:trunflags=%x:%s", flags, hx.Hex(d[len(d)-min3(len(d), 120):])))
 			}
 		}
+	}
+	// several trafs per moof mixing clear / encrypted / zero-sample senc in every order (the Y cases of the correspondence): the
+	// second senc pass of the two file loops must leave every traf's senc in the same state (structural comparison of the decodings)
+	for i, c := range genYCases(r, n/40) {
+		data, _ := c.render()
+		moov, trafs := c.modelStrings()
+		jobs = append(jobs, job{kind: "F3", cfg: []string{"RN0", "RN0", "RN2"}[i%3], data: data})
+		descs = append(descs, "sencpass:"+moov+":"+trafs)
 	}
 	seen := map[string]bool{}
 	perBox := n / 300
